@@ -6,13 +6,25 @@ LEVEL = "model_checking"
 
 
 def run(chk, args):
+    only = set(args.only.split(",")) if args.only else None
     if args.replay:
+        import json
+        with open(args.replay) as fh:
+            rp = json.load(fh)["replay"]
+        if isinstance(rp, dict) and str(rp.get("kind", "")).startswith("bridgelist"):
+            from checks import c03_bridgelist
+            return c03_bridgelist.replay_part(chk, rp)
         return brokerlib.replay(chk, "C03", args.replay)
-    brokerlib.pipeline(chk, "C03", chk.tier, chk.seed)
+    if only is None or only - {"bridgelist"}:
+        brokerlib.pipeline(chk, "C03", chk.tier, chk.seed)
+    if only is None or "bridgelist" in only:
+        # how the bridge table the model takes as a constant comes to be: spec/BridgeList (loader, lookups, reload)
+        from checks import c03_bridgelist
+        c03_bridgelist.run_bridgelist_part(chk, chk.tier == "quick")
 
 
 MANIFEST = {
     "technique": 'TLA+ spec Broker: MatchRight/NATCompatible model-checked over all NAT x load populations of <=3 waiting proxies; pop events logged under the matching lock (heap root, pool size) validated by TLC against the trace spec on replays and herds',
     "text": 'Pool selection, refusal condition and least-load choice are action properties of ClientMatch, checked exhaustively on the model and on every recorded pop of the real code: the hook inside the matching lock logs the decoded NAT, the pool size and the heap root the pop returns; TLC reconstructs the heaps from add/pop/remove events and rejects a pop that is not a minimum of the eligible pool or a refusal with a non-empty pool.',
-    "note": 'Bounded populations (<=3 waiting per scenario in replays, up to 12+ in herds, loads 0/8/16/24); ties are accepted in either order; wire NAT values absent/empty/three names.',
+    "note": 'The bridge table (fingerprint -> relay URL) that the model takes as a constant is covered by spec/BridgeList: the line-by-line loader with its all-or-nothing and last-wins rules as a contract over TLC-enumerated files, the swap under the RW lock against concurrent lookups, and the relay URL handed out through the real IPC pair. Bounded populations (<=3 waiting per scenario in replays, up to 12+ in herds, loads 0/8/16/24); ties are accepted in either order; wire NAT values absent/empty/three names.',
 }
